@@ -7,6 +7,8 @@ import Driver.OpsOutput
 import Driver.OpsClap
 import Driver.OpsScope
 import Driver.OpsRenamePlan
+import Driver.OpsUndo
+import Driver.OpsLock
 /-
   rmodel: the executable side of the Lean model.  One request per line on stdin, one canonical
   result line on stdout; the same lines go to the Rust harness and the two streams are diffed.
@@ -23,6 +25,8 @@ def handlers : List (List String → Option String) :=
   , OpsClap.dispatch
   , OpsScope.dispatch
   , OpsRenamePlan.dispatch
+  , OpsUndo.dispatch
+  , OpsLock.dispatch
   ]
 
 def dispatch (fields : List String) : String :=
